@@ -107,13 +107,14 @@ EvObs ==
 \* the raw directory of an OCI layout
 EvDisk ==
   /\ Rec.e = "disk"
-  /\ V(IF lost THEN {} ELSE
-       {<<"DiskLayoutParses", Rec.layoutok /\ Rec.indexok>>,
+  \* validity of the directory as an image layout does not depend on the model state
+  /\ V({<<"DiskLayoutParses", Rec.layoutok /\ Rec.indexok>>,
         <<"DiskBlobNames", Rec.badblobs = 0>>,
-        <<"DiskBlobFiles", Rng(Rec.blobs) = Present>>,
-        <<"DiskNamedEntriesResolve", Rec.danglingnamed = 0>>,
+        <<"DiskNamedEntriesResolve", Rec.danglingnamed = 0>>}
+       \cup (IF lost THEN {} ELSE
+       {<<"DiskBlobFiles", Rng(Rec.blobs) = Present>>,
         <<"DiskIndexTags", ~Rec.saved \/ {<<Rec.entries[i][1], Rec.entries[i][2]>> : i \in {j \in 1..Len(Rec.entries) : Rec.entries[j][1] # ""}}
-                               = TagPairs(tags)>>})
+                               = TagPairs(tags)>>}))
   /\ UNCHANGED <<g, content, tags, indexed, stray, tagann, gclo, par, lost>>
 
 EvReopenErr ==
